@@ -978,6 +978,8 @@ static Token *preprocess2(Token *tok) {
     }
 
     if (equal(tok, "ifdef")) {
+      if (tok->next->at_bol || tok->next->kind != TK_IDENT)
+        error_tok(tok, "macro name must be an identifier");
       bool defined = find_macro(tok->next);
       push_cond_incl(tok, defined);
       tok = skip_line(tok->next->next);
@@ -987,6 +989,8 @@ static Token *preprocess2(Token *tok) {
     }
 
     if (equal(tok, "ifndef")) {
+      if (tok->next->at_bol || tok->next->kind != TK_IDENT)
+        error_tok(tok, "macro name must be an identifier");
       bool defined = find_macro(tok->next);
       push_cond_incl(tok, !defined);
       tok = skip_line(tok->next->next);
